@@ -1,6 +1,6 @@
 (* non-vacuity for C16 and the recorded refutation F19 *)
 From GV Require Import Base.Prelude Base.PyStr Model.Bins Model.DB Model.Parser Model.Query Model.Import Model.Merge
-  Gen.GenLib Gen.GenCriteria Proofs.C16Proofs Proofs.C16Union.
+  Gen.GenLib Gen.GenCriteria Proofs.C16Proofs Proofs.C16Union Proofs.C16Classes.
 Open Scope Z_scope.
 Definition iv (id : str) (strand : str) (s e : Z) : minput :=
   mkIn id {| m_seqid := U "chr1"%bs; m_strand := strand; m_ftype := U "exon"%bs; m_start := s; m_end := e |} (U "src"%bs) [46%N].
@@ -33,4 +33,24 @@ Proof.
   - cbn. lia.
   - intros f Hf. repeat (destruct Hf as [Hf|Hf]; [subst f; cbn; lia|]). destruct Hf.
   - vm_compute. repeat split.
+Qed.
+
+(* C16_default_runs_per_class: three classes in one input ((chr1,+), (chr1,-), (chr2,+)); the hypotheses hold and the
+   outputs are the per-stretch runs: [1-6 (2 members)] [9-9] | [2-5] | [1-3 (2 members)] *)
+Definition iv2 (seqid id strand : str) (s e : Z) : minput :=
+  mkIn id {| m_seqid := seqid; m_strand := strand; m_ftype := U "exon"%bs; m_start := s; m_end := e |} (U "src"%bs) [46%N].
+Definition mixed := [iv (U "a"%bs) P 1 4; iv (U "b"%bs) P 3 6; iv (U "c"%bs) P 9 9; iv (U "d"%bs) M 2 5;
+                     iv2 (U "chr2"%bs) (U "e"%bs) P 1 2; iv2 (U "chr2"%bs) (U "f"%bs) P 3 3].
+Example C16_runs_per_class_inhabited :
+  (forall f, In f mixed -> wf f) /\ Forall start_sorted (group mixed) /\ class_start_chain mixed /\
+  map (@length minput) (group mixed) = [3%nat; 1%nat; 2%nat] /\
+  map (fun o => (m_start (out_view o), m_end (out_view o), length (members o))) (fst (merge default_criteria mixed []))
+  = [(1, 6, 2%nat); (9, 9, 1%nat); (2, 5, 1%nat); (1, 3, 2%nat)].
+Proof.
+  split; [|split; [|split; [|split]]].
+  - intros f Hf. repeat (destruct Hf as [Hf|Hf]; [subst f; split; [vm_compute; intuition discriminate|cbn; lia]|]). destruct Hf.
+  - vm_compute. repeat constructor; intros H; discriminate H.
+  - cbn [class_start_chain mixed]. repeat split; intros H; first [cbn; lia | vm_compute in H; discriminate H].
+  - vm_compute. reflexivity.
+  - vm_compute. reflexivity.
 Qed.
